@@ -124,6 +124,10 @@ GEN = {
     # two triangles sharing an edge (two independent loops), tuple site labels
     "diamond": dict(sites=((0, 0), (0, 1), (1, 0), (1, 1)), dims=(2, 2, 2, 2), edges=(((0, 0), (0, 1), 2), ((0, 0), (1, 0), 2), ((0, 1), (1, 1), 2), ((1, 0), (1, 1), 2), ((0, 1), (1, 0), 2))),
     "ring5": dict(sites=(0, 1, 2, 3, 4), dims=(2, 2, 2, 2, 2), edges=((0, 1, 2), (1, 2, 2), (2, 3, 2), (3, 4, 2), (4, 0, 2))),
+    # triangle + tail with rank-1 weight tensors on the physical labels of sites
+    # 1 (in the loop) and 3 (the tail): hyper OUTER labels, no hyper bonds, so
+    # every route that selects by site tag applies
+    "tritailw": dict(sites=(0, 1, 2, 3), dims=(2, 2, 2, 3), edges=((0, 1, 2), (1, 2, 2), (2, 0, 2), (2, 3, 3)), weights=(1, 3)),
 }
 
 STRUCTS = {
@@ -168,6 +172,8 @@ class St:
         self.N = len(self.sites)
         self.psi = self._dense()
         self.norm2 = float(np.vdot(self.psi, self.psi).real)
+        # some physical label sits on more than one tensor (hyper OUTER label)
+        self.hyper_phys = any(len(self.tn.ind_map[self.tn.site_ind(x)]) > 1 for x in self.sites)
         self.graph = _adjacency(self.tn, self.sites)
         self.no_dangling = all(len(v) >= 2 for v in self.graph.values())
         self.is_ring = all(len(v) == 2 for v in self.graph.values()) and self.N >= 3
@@ -250,10 +256,14 @@ def _build(name):
             inds.append("k{}".format(s))
             shp.append(d)
             tn |= qtn.Tensor(fill("generic", shp, "complex128", key=("c13", name, n)), inds=inds, tags=["I{}".format(s)])
+        for s in sp.get("weights", ()):
+            d = sp["dims"][sites.index(s)]
+            tn |= qtn.Tensor(fill("generic", (d,), "complex128", key=("c13", name, "w", s)) + 1.5, inds=["k{}".format(s)], tags=["I{}".format(s)])
         return tn, sites
     if cls == "hyper":
         # hyper inner label 'h' shared by three tensors, site 1 held by two
-        # tensors (its physical label sits on one of them), a plain bond
+        # tensors (its physical label sits on one of them), a plain bond, and a
+        # hyper physical label on site 2
         sites = (0, 1, 2)
         tn = qtn.TensorNetworkGenVector.new(sites=sites, site_tag_id="I{}", site_ind_id="k{}")
         shapes = [
@@ -261,6 +271,9 @@ def _build(name):
             (("h", "x", "k1"), (2, 2, 2), ["I1"]),
             (("x", "y"), (2, 3), ["I1"]),
             (("h", "y", "k2"), (2, 3, 2), ["I2"]),
+            # rank-1 weight on the physical label of site 2: 'k2' is a hyper
+            # OUTER label (kept or traced out depending on where)
+            (("k2",), (2,), ["I2"]),
         ]
         for n, (inds, shp, tags) in enumerate(shapes):
             tn |= qtn.Tensor(fill("generic", shp, "complex128", key=("c13", name, n)), inds=inds, tags=tags)
@@ -330,7 +343,8 @@ class Out:
         s.update(kw)
         return s
 
-    UNNORM = ("normalized=False", "normalized=return", "normalized=global", "what=norm", "what=mpo", "what=fn-mpo", "unnormalised")
+    # (normalized='global' is a NORMALISED request: it must not be folded into the exponent finding)
+    UNNORM = ("normalized=False", "normalized=return", "what=norm", "what=mpo", "what=fn-mpo", "unnormalised")
 
     def bad(self, entry, check, sub, msg, **kw):
         if self.st.expo and check in ("value", "trace") and any(t in sub for t in self.UNNORM):
@@ -580,8 +594,8 @@ def r_lex_cluster(st, cell, out):
     G = _op(st, where)
     for m in _cluster_modes(st):
         for o in _prod(normalized=(True, False), max_bond=(None, 64)):
-            if o["max_bond"] is not None and m["fillin"]:
-                continue
+            if o["max_bond"] is not None and (m["fillin"] or st.hyper_phys):
+                continue  # (compressed contraction does not support hyper labels)
             sub = _sub(m=_mkey(m), **o)
             kw = {}
             extra = {}
@@ -703,6 +717,8 @@ def r_cle_loops(st, cell, out):
     gz = st.gauges if st.gauged else {}
     for sname, gl in _gloop_sets(st):
         for o in _prod(normalized=(True, False, "global"), return_all=(False, True), combine=("prod", "sum")):
+            if o["normalized"] == "global" and st.hyper_phys:
+                continue  # (the tn.H | tn norm idiom of norm_gloop_expand mangles a hyper physical label)
             ar = bool(st.no_dangling)
             sub = _sub(gloops=sname, **o)
             okc, got = _call(out, "compute_local_expectation_gloop_expand", sub, lambda: tn.compute_local_expectation_gloop_expand(terms, gloops=gl, gauges=gz, autoreduce=ar, **o))
@@ -1012,6 +1028,204 @@ def r_1d_magn(st, cell, out):
                 out.scalar("magnetization", sub, got, _expec(st, S[d], where, True), rtol=RTOL_SVD, scale=1.0)
 
 
+# ---- two-step histories: ONE container threaded through two queries ------- #
+
+
+def _where2(st, where):
+    """the second query of a history: the reflected sites (far from the first)"""
+    N = st.N
+    w2 = tuple(N - 1 - i for i in where)
+    if w2 == tuple(where):
+        w2 = tuple((i + 1) % N for i in where)
+    return w2
+
+
+def _steps_1d(st):
+    """name -> fn(m, info, where, normalized) -> (entry, kind, got, expectation data)"""
+
+    def ptr(m, info, where, n):
+        return "partial_trace_to_dense_canonical", "rho", m.partial_trace_to_dense_canonical(st.w(where), normalized=n, info=info), None
+
+    def lex(m, info, where, n):
+        G = _op(st, where, tag="H")
+        return "local_expectation_canonical", "scalar", m.local_expectation_canonical(G, st.w(where), normalized=n, info=info), G
+
+    def mk_terms(entry, **kw):
+        def f(m, info, where, n):
+            terms, info3 = _terms3(st, where)
+            extra = dict(kw)
+            if extra.get("method") != "envs" and entry != "compute_local_expectation_via_envs":
+                extra["info"] = info
+            got = getattr(m, entry.replace("[1D]", ""))(terms, normalized=n, return_all=True, **extra)
+            return entry, "terms", got, info3
+
+        return f
+
+    return {
+        "ptr": ptr,
+        "lex": lex,
+        "cle": mk_terms("compute_local_expectation_canonical", inplace=False),
+        "cle!": mk_terms("compute_local_expectation_canonical", inplace=True),
+        "disp": mk_terms("compute_local_expectation[1D]", method="canonical", inplace=False),
+        "disp!": mk_terms("compute_local_expectation[1D]", method="canonical", inplace=True),
+        "envs": mk_terms("compute_local_expectation[1D]", method="envs"),
+    }
+
+
+def _check_step(out, st, entry, kind, got, data, where, n, sub, rtol, **kw):
+    if kind == "rho":
+        return out.rho(entry, sub, got, _rdm(st, where, n), n, rtol=rtol, **kw)
+    if kind == "scalar":
+        return out.scalar(entry, sub, got, _expec(st, data, where, n), rtol=rtol, scale=1.0 if n else st.norm2, **kw)
+    return _check_terms(out, entry, sub, got, data, n, True, rtol=rtol, **kw)
+
+
+def r_1d_hist(st, cell, out):
+    """every ordered pair of 1D routes, the SAME mps object and the SAME info
+    dict threaded through both calls (second query on the reflected sites):
+    both answers must be the dense ones.  A route that works on a private copy
+    must not leave a record about that copy in the caller's info."""
+    if st.cls != "mps" or st.gauged or st.spec["cyclic"]:
+        return
+    where = cell["where"]
+    w2 = _where2(st, where)
+    steps = _steps_1d(st)
+    L = st.N
+    starts = [("info={}", lambda m: {}), ("info=calc", lambda m: {"cur_orthog": "calc"})]
+    for c in (0, L - 1):
+
+        def prep(m, c=c):
+            info = {}
+            m.canonicalize_(c, info=info)
+            return info
+
+        starts.append(("precanon@%d" % c, prep))
+    norms = (True, False) if cell.get("tier") == "thorough" else (True,)
+    for a, b in itertools.product(steps, repeat=2):
+        for sname, prep in starts:
+            for n in norms:
+                m = st.fresh()
+                info = prep(m)
+                for k, (nm, wh) in enumerate(((a, where), (b, w2)), 1):
+                    sub = _sub(h="%s>%s" % (a, b), start=sname, normalized=n, step=k)
+                    kw = dict(step=k) if k > 1 else {}
+                    try:
+                        entry, kind, got, data = steps[nm](m, info, wh, n)
+                    except Exception as ex:
+                        ent = {"ptr": "partial_trace_to_dense_canonical", "lex": "local_expectation_canonical"}.get(nm, "compute_local_expectation[1D]")
+                        out.bad(ent, "crash", sub, "raised %s: %s" % (type(ex).__name__, str(ex)[:200]), exc=type(ex).__name__, **kw)
+                        break
+                    if not _check_step(out, st, entry, kind, got, data, wh, n, sub, RTOL_SVD, **kw):
+                        break
+
+
+def _terms_h(st, where):
+    """two terms whose operator is a function of the site tuple ONLY (tag H): a
+    cache hit on (region, where) from an earlier query of the history is then
+    legitimate, and gets exercised"""
+    w2 = _second_where(st, where)
+    items = ((st.w(where), _op(st, where, tag="H"), where), (st.w(w2), _op(st, w2, tag="H"), w2))
+    return {k: G for k, G, _ in items}, items
+
+
+def _steps_loops(st, family):
+    """loop-expansion queries that take info=: name -> fn(info, where, n, loops) -> (entry, kind, got, data)"""
+    tn = st.tn
+    gz = st.gauges if st.gauged else {}
+    ar = bool(st.no_dangling)
+    if family == "gloop":
+
+        def single(info, where, n, gl):
+            G = _op(st, where, tag="H")
+            return "local_expectation_gloop_expand", "scalar", tn.local_expectation_gloop_expand(G, st.w(where), gloops=gl, gauges=gz, autoreduce=ar, normalized=n, info=info), G
+
+        def many(info, where, n, gl):
+            terms, ti = _terms_h(st, where)
+            return "compute_local_expectation_gloop_expand", "terms", tn.compute_local_expectation_gloop_expand(terms, gloops=gl, gauges=gz, autoreduce=ar, normalized=n, return_all=True, info=info), ti
+
+        def glob(info, where, n, gl):
+            terms, ti = _terms_h(st, where)
+            return "compute_local_expectation_gloop_expand", "terms-global", tn.compute_local_expectation_gloop_expand(terms, gloops=gl, gauges=gz, autoreduce=ar, normalized="global", return_all=True, info=info), ti
+
+        def norm(info, where, n, gl):
+            return "norm_gloop_expand", "norm", tn.norm_gloop_expand(gloops=gl, gauges=gz, autoreduce=ar, info=info), None
+
+        d = {"one": single, "many": many}
+        if not st.hyper_phys:
+            d.update({"global": glob, "norm": norm})
+        return d
+
+    def single(info, where, n, sl):
+        G = _op(st, where, tag="H")
+        return "local_expectation_sloop_expand", "scalar", tn.local_expectation_sloop_expand(G, st.w(where), sloops=sl, gauges=gz, normalized=n, info=info), G
+
+    def many(info, where, n, sl):
+        terms, ti = _terms_h(st, where)
+        return "compute_local_expectation_sloop_expand", "terms", tn.compute_local_expectation_sloop_expand(terms, sloops=sl, gauges=gz, normalized=n, return_all=True, info=info), ti
+
+    return {"one": single, "many": many}
+
+
+def r_info_hist(st, cell, out):
+    """loop expansions: the SAME info cache threaded through two successive
+    queries (different sites, different operators, every pair of entry points
+    of the family and every pair of loop-set arguments)."""
+    if st.cls == "hyper":
+        return
+    where = cell["where"]
+    w2 = _where2(st, where)
+    fams = [("gloop", [gl for _, gl in _gloop_sets(st)])]
+    if st.is_ring:
+        fams.append(("sloop", [st.N, None]))
+    for fam, sets in fams:
+        steps = _steps_loops(st, fam)
+        for a, b in itertools.product(steps, repeat=2):
+            for la, lb in itertools.product(range(len(sets)), repeat=2):
+                if la != lb and cell.get("tier") != "thorough":
+                    continue
+                for n in (True, False):
+                    info = {}
+                    for k, (nm, wh, li) in enumerate(((a, where, la), (b, w2, lb)), 1):
+                        sub = _sub(fam=fam, h="%s>%s" % (a, b), loops="%d>%d" % (la, lb), normalized=n, step=k)
+                        kw = dict(step=k) if k > 1 else {}
+                        if k > 1 and (a == "global") != (b == "global") and "norm" not in (a, b):
+                            # root from the case: normalized='global' (which expands a RESCALED copy) shares
+                            # the cluster / value cache with a query on the network itself
+                            kw["root"] = "loop-info-global-mix"
+                        try:
+                            entry, kind, got, data = steps[nm](info, wh, n, sets[li])
+                        except Exception as ex:
+                            out.bad("%s-expansion" % fam, "crash", sub, "step %s raised %s: %s" % (nm, type(ex).__name__, str(ex)[:200]), exc=type(ex).__name__, **kw)
+                            break
+                        if kind == "norm":
+                            good = out.scalar(entry, sub + ",unnormalised", got, np.sqrt(st.norm2), **kw)
+                        elif kind == "terms-global":
+                            good = _check_terms(out, entry, sub.replace("normalized=%s" % n, "normalized=global"), got, data, True, True, **kw)
+                        else:
+                            good = _check_step(out, st, entry, kind, got, data, wh, n, sub, RTOL, **kw)
+                        if not good:
+                            break
+        # same sites, ANOTHER operator, same info (documented: reuse while the
+        # network and gauges stay the same)
+        one = steps["one"]
+        for n in (True, False):
+            info = {}
+            for k, tag in enumerate(("H", "H'"), 1):
+                sub = _sub(fam=fam, h="one>one/same-where-other-operator", normalized=n, step=k)
+                kw = dict(step=k, root="loop-info-cache-ignores-operator") if k > 1 else {}
+                G = _op(st, where, tag=tag)
+                try:
+                    if fam == "gloop":
+                        entry, got = "local_expectation_gloop_expand", st.tn.local_expectation_gloop_expand(G, st.w(where), gloops=sets[0], gauges=st.gauges if st.gauged else {}, autoreduce=bool(st.no_dangling), normalized=n, info=info)
+                    else:
+                        entry, got = "local_expectation_sloop_expand", st.tn.local_expectation_sloop_expand(G, st.w(where), sloops=sets[0], gauges=st.gauges if st.gauged else {}, normalized=n, info=info)
+                except Exception as ex:
+                    out.bad("%s-expansion" % fam, "crash", sub, "raised %s: %s" % (type(ex).__name__, str(ex)[:200]), exc=type(ex).__name__, **kw)
+                    break
+                if not out.scalar(entry, sub, got, _expec(st, G, where, n), scale=1.0 if n else st.norm2, **kw):
+                    break
+
+
 # --------------------------------------------------------------------------- #
 #                                 2D routes                                   #
 # --------------------------------------------------------------------------- #
@@ -1098,6 +1312,64 @@ def r_2d_norm(st, cell, out):
                 out.ok("normalize", sub2)
 
 
+def r_2d_hist(st, cell, out):
+    """precomputed plaquette environments (and map) threaded through two
+    successive compute_local_expectation calls with different terms"""
+    if st.cls != "peps" or st.gauged:
+        return
+    from quimb.tensor.tn2d.core import calc_plaquette_map, calc_plaquette_sizes
+
+    where = cell["where"]
+    if len(where) > 2:
+        return
+    tn = st.tn
+    N = st.N
+
+    def terms_for(wh, tag):
+        w = st.w(wh)
+        if len(wh) == 2 and not w[0] < w[1]:
+            wh = tuple(reversed(wh))
+            w = st.w(wh)
+        k1 = w[0] if len(wh) == 1 else w
+        wo = ((max(wh) + 1) % N,)
+        k2 = st.w(wo)[0]
+        G, G2 = _op(st, wh, tag=tag), _op(st, wo, tag=tag + "2")
+        if k1 == k2:
+            return {k1: G}, ((k1, G, wh),)
+        return {k1: G, k2: G2}, ((k1, G, wh), (k2, G2, wo))
+
+    q1 = terms_for(where, "P")
+    q2 = terms_for(_where2(st, where), "Q")
+    keys = list(q1[0]) + list(q2[0])
+    for o in _prod(envopts=("mps/None", "full-bond/64", "mps/64/1layer"), autogroup=(True, False), with_map=(False, True), normalized=(True, False)):
+        mode, mb = o["envopts"].split("/")[:2]
+        eo = dict(mode=mode, max_bond=None if mb == "None" else int(mb), cutoff=0.0, canonize=True, layer_tags=None if o["envopts"].endswith("1layer") else ("KET", "BRA"))
+        sub0 = _sub(**o)
+        try:
+            norm = tn.make_norm()
+            envs = {}
+            for xb, yb in calc_plaquette_sizes(keys, o["autogroup"]):
+                envs.update(norm.compute_plaquette_environments(x_bsz=xb, y_bsz=yb, **eo))
+            pmap = calc_plaquette_map(envs) if o["with_map"] else None
+        except Exception as ex:
+            out.bad("compute_plaquette_environments", "crash", sub0, "raised %s: %s" % (type(ex).__name__, str(ex)[:200]), exc=type(ex).__name__)
+            continue
+        for k, (terms, info) in enumerate((q1, q2), 1):
+            sub = sub0 + ",step=%d" % k
+            kw = dict(step=k) if k > 1 else {}
+            okc, got = _call(out, "compute_local_expectation[2D]", sub, lambda: tn.compute_local_expectation(terms, plaquette_envs=envs, plaquette_map=pmap, normalized=o["normalized"], return_all=True), **kw)
+            if not okc:
+                break
+            n = o["normalized"]
+            try:
+                got = {kk: (e / nn if n else e) for kk, (e, nn) in got.items()}
+            except Exception:
+                out.bad("compute_local_expectation[2D]", "type", sub, "return_all=True did not give {where: (expec, norm)}", **kw)
+                break
+            if not _check_terms(out, "compute_local_expectation[2D]", sub, got, info, n, True, rtol=RTOL_SVD, **kw):
+                break
+
+
 # --------------------------------------------------------------------------- #
 #                                 3D routes                                   #
 # --------------------------------------------------------------------------- #
@@ -1121,7 +1393,20 @@ def r_3d(st, cell, out):
             okc, got = _call(out, "partial_trace[3D]", sub, lambda: tn.partial_trace(w[0], max_bond=256, cutoff=0.0))
             if okc:
                 out.rho("partial_trace[3D]", sub, got, _rdm(st, where, True), True, rtol=RTOL_SVD)
+        # the envs= cache threaded through three successive queries
+        envs = {}
+        w2 = _where2(st, where)
+        for k, wh in enumerate((where, w2), 1):
+            sub = "envs-cache,step=%d" % k
+            kw = dict(step=k) if k > 1 else {}
+            okc, got = _call(out, "partial_trace[3D]", sub, lambda: tn.partial_trace(st.w(wh), max_bond=256, cutoff=0.0, envs=envs), **kw)
+            if okc:
+                out.rho("partial_trace[3D]", sub, got, _rdm(st, wh, True), True, rtol=RTOL_SVD, **kw)
         terms, info = _terms(st, where)
+        sub = "envs-cache,step=3"
+        okc, got = _call(out, "compute_local_expectation[3D]", sub, lambda: tn.compute_local_expectation(terms, max_bond=256, cutoff=0.0, envs=envs, return_all=True), step=3)
+        if okc:
+            _check_terms(out, "compute_local_expectation[3D]", sub, got, info, True, True, rtol=RTOL_SVD, step=3)
         for o in _prod(normalized=(True, False), return_all=(False, True), flatten=(False, True)):
             sub = _sub(**o)
             okc, got = _call(out, "compute_local_expectation[3D]", sub, lambda: tn.compute_local_expectation(terms, max_bond=256, cutoff=0.0, **o))
@@ -1267,6 +1552,9 @@ ROUTES = {
     "1d_expec": (r_1d_expec, 1, True),
     "1d_corr": (r_1d_corr, 2, False),
     "1d_magn": (r_1d_magn, 1, False),
+    "1d_hist": (r_1d_hist, 2, False),
+    "info_hist": (r_info_hist, 2, False),
+    "2d_hist": (r_2d_hist, 2, False),
     "2d_plaq": (r_2d_plaq, 2, False),
     "2d_norm": (r_2d_norm, 1, True),
     "3d": (r_3d, 2, False),
@@ -1285,6 +1573,11 @@ def _applicable(name, gauged, route):
         # hyper labels: only the routes whose docstring promises to handle them
         # (get_path_between_tids / compressed contraction document that they do not)
         return route in ("ptr_exact", "lex_exact", "cle_exact")
+    if name == "tritailw":
+        # hyper PHYSICAL labels: the routes that go through make_reduced_density_matrix
+        # ("special care to handle potential hyper inner and outer indices"); not the
+        # compressed contractions nor the tn.H | tn norm of norm_gloop_expand
+        return (not gauged) and route in ("ptr_exact", "lex_exact", "cle_exact", "ptr_cluster", "lex_cluster", "cle_cluster", "gloop", "cle_loops", "info_hist")
     if cls == "peps3d":
         # PEPS3D overrides partial_trace / partial_trace_cluster with its own
         # signatures (route 3d); the inherited local_expectation is probed once
@@ -1325,12 +1618,12 @@ EXPO_THOROUGH = ("mps4", "mps4c", "tree4", "ring4", "hyper", "peps22", "peps23")
 def _tier_structs(tier):
     """(name, gauged, exponent variant)"""
     if tier == "quick":
-        base = [("mps4", False), ("mps4", True), ("mps4c", False), ("tree4", False), ("tree4", True), ("ring4", False), ("ring4", True), ("tritail", False), ("hyper", False), ("peps22", False), ("peps22", True), ("peps23", False)]
+        base = [("mps4", False), ("mps4", True), ("mps4c", False), ("tree4", False), ("tree4", True), ("ring4", False), ("ring4", True), ("tritail", False), ("tritailw", False), ("hyper", False), ("peps22", False), ("peps22", True), ("peps23", False)]
         return [(n, g, False) for n, g in base] + [(n, False, True) for n in EXPO_QUICK]
     outl = []
     for name in STRUCTS:
         outl.append((name, False, False))
-        if STRUCTS[name]["cls"] != "hyper":
+        if STRUCTS[name]["cls"] != "hyper" and name != "tritailw":
             outl.append((name, True, False))
     return outl + [(n, False, True) for n in EXPO_THOROUGH]
 
@@ -1370,6 +1663,8 @@ def _cells(tier, only_routes=None, only_structs=None):
                 continue
             if not _applicable(name, g, route):
                 continue
+            if route.endswith("_hist") and (e or (g and tier == "quick")):
+                continue  # histories: plain networks (thorough: also the gauged ones)
             if indep:
                 cells.append(dict(st=name, g=g, e=e, route=route, where=(0,), tier=tier))
                 continue
@@ -1390,7 +1685,7 @@ def _op_cells(tier):
     return cells
 
 
-_COST = {"3d": 50, "gloop": 6, "2d_plaq": 6, "1d_terms": 6, "cle_loops": 4, "lex_disp": 4, "ptr_disp": 3, "2d_norm": 5}
+_COST = {"3d": 50, "info_hist": 8, "1d_hist": 10, "2d_hist": 6, "gloop": 6, "2d_plaq": 6, "1d_terms": 6, "cle_loops": 4, "lex_disp": 4, "ptr_disp": 3, "2d_norm": 5}
 
 
 def _cost(c):
